@@ -30,6 +30,28 @@ def run(ctx):
     ctx.each(r17f, ctx, repo)
 
 
+GENERATOR_CTORS = ("np.random.default_rng", "numpy.random.default_rng", "np.random.RandomState", "np.random.Generator", "default_rng", "random.Random")
+
+
+def module_generators(module):
+    """module-level names bound to a random generator object: {name: stmt}"""
+    out = {}
+    for s in module.tree.body:
+        if isinstance(s, ast.Assign) and len(s.targets) == 1 and isinstance(s.targets[0], ast.Name) and isinstance(s.value, ast.Call) and ast.unparse(s.value.func) in GENERATOR_CTORS:
+            out[s.targets[0].id] = s
+    return out
+
+
+def generator_draws(fi):
+    """draws from a module-level generator object (its state is copied into every forked worker; np.random.seed() does not touch it)"""
+    gens = module_generators(fi.module)
+    out = []
+    for c in own_nodes(fi.node):
+        if isinstance(c, ast.Call) and isinstance(c.func, ast.Attribute) and isinstance(c.func.value, ast.Name) and c.func.value.id in gens and c.func.attr in DRAWS | {"standard_normal", "integers", "random"}:
+            out.append(c)
+    return out
+
+
 def draw_calls(fi):
     out = []
     for c in own_nodes(fi.node):
@@ -37,7 +59,7 @@ def draw_calls(fi):
             fn = ast.unparse(c.func)
             if fn.startswith(("np.random.", "numpy.random.")) and fn.split(".")[-1] in DRAWS:
                 out.append(c)
-    return out
+    return out + generator_draws(fi)
 
 
 def has_reseed(fi):
@@ -96,6 +118,12 @@ def r17a(ctx, repo, cg):
             ctx.ok("R17a", fi, "%s(%s): no global-generator draw reachable from the task" % (kind, task.qualname), call)
             continue
         witness = " -> ".join(cg.path_to(seen, sorted(drawers)[0]))
+        # draws from a module-level generator object are not affected by np.random.seed(): the worker (initialiser or task) would have to rebind it
+        for fq in sorted(drawers):
+            for gd in generator_draws(cg.byfq[fq]):
+                gname = gd.func.value.id
+                rebinders = [f for f in ([init] if init is not None else []) + [task] if f is not None and any(isinstance(x, ast.Global) and gname in x.names for x in own_nodes(f.node))]
+                ctx.check(bool(rebinders), "R17a", cg.byfq[fq], enclosing_stmt(gd), "module-level generator `%s` re-created in every worker" % gname, "`%s` draws from the module-level generator `%s`; %s hands `%s` to forked workers, each of which inherits an identical copy of that generator's state (np.random.seed() in the initialiser does not reseed it): samples run on different workers receive the same perturbations" % (ast.unparse(gd)[:60], gname, kind, task.qualname))
         seeded_by_init = kind == "parallel_progress" and init is not None and bool(has_reseed(init))
         if seeded_by_init:
             # ... on every path through the initialiser: an early return in front of the reseed leaves the forked generator state in place
